@@ -23,7 +23,7 @@ ASSUMPTIONS = ["Thompson-entropy tables are random: only the table-level arg-max
                "ties within 1e-12 are accepted in any order"]
 N = {"quick": 150, "thorough": 5000}
 REQUIRE = {"quick": {"evaluations_observed": 1500, "tables_checked": 800, "rule_values_checked": 1500, "data_delta_checked": 600,
-                     "direct_joint_calls": 300, "direct_decoupled_calls": 300, "bandit_rounds": 100, "tie_tables": 100, "ad_sample_steps": 10, "ad_refine_steps": 10, "real_model_runs": 40, "batches_with_descending_objective_labels": 10}}
+                     "direct_joint_calls": 300, "direct_decoupled_calls": 300, "bandit_rounds": 100, "tie_tables": 100, "ad_sample_steps": 10, "ad_refine_steps": 10, "real_model_runs": 40, "rounds_with_non_ascending_active_set_order": 2, "batches_with_descending_objective_labels": 10}}
 TIMEOUT = {"quick": 1500, "thorough": 7200}
 ALL = ["PaVeBa", "PaVeBaGP-IH", "PaVeBaGP-DE", "PartialGP-rect", "PartialGP-ell", "VOGP", "EpsilonPAL", "Auer", "DecoupledGP", "VOGP", "PartialGP-rect"]
 
@@ -163,8 +163,31 @@ def real_model_run(mon, rng):
                         mon.count("batches_with_descending_objective_labels")
 
 
+def directed_set_order(mon):
+    """bandit algorithms pair observations with designs through the iteration order of a SET of indices; with 10 designs and
+    survivors {1, 8} that order is [8, 1], not ascending (seeded/C07d-paveba-sorted-points-set-order-adds)."""
+    rng = np.random.default_rng(707)
+    assert list({8, 1}) == [8, 1]
+    for variant in ("PaVeBa", "Auer"):
+        mu = np.array([[-3.0 - 0.1 * i, -3.0 - 0.05 * i] for i in range(10)])
+        mu[1] = [0.0, 0.004]
+        mu[8] = [0.004, 0.0]  # two incomparable near-ties survive; everybody else is far below
+        case, order = runs.make_case(rng, variant, m=2, K=10, mu=mu, eps=0.0005, scale=1.0, cone_families=["orthant"],
+                                     contraction=64.0, noise_var=0.01, obs_mode="controlled")
+        case["max_rounds"] = 6
+        tr = runs.run_case(case, order, mon, max_extra_steps=0)
+        for st in tr.steps:
+            if st["crash"] is None:
+                runchecks.check_acquisition(mon, tr, st)
+                act = st["pre"][0] | (st["pre"][2] or set())
+                if len(act) >= 2 and list(act) != sorted(act):
+                    mon.count("rounds_with_non_ascending_active_set_order")
+
+
 def shard(mon, tier, rng, shard_no, nshards):
     n = max(len(ALL), N[tier] // nshards)
+    if shard_no == 2 % nshards:
+        directed_set_order(mon)
     for _ in range(3 if tier == "quick" else 20):
         real_model_run(mon, rng)
     for _ in range(2 if tier == "quick" else 8):
